@@ -63,6 +63,7 @@ func (e *Engine) verifyFunc(key string) (res *FuncResult) {
 	}()
 	f := x.newFrame(fi)
 	x.frames = []*frame{f}
+	heapSorts = map[string]*Sort{}
 	x.installHeapHook()
 	st := &State{guard: True, env: map[types.Object]*Value{}, heap: map[string]*Term{}}
 	st.allocBase = Var("alloc0", IntS)
